@@ -262,6 +262,10 @@ def _main(pid, mod, seed, tier, args, tmp, t0):
         print(line)
     for sig, rp in reported:
         print("  violated: %s" % sig)
+        try:
+            print("  detail: %s" % str(json.loads(rp.read_text()).get("detail"))[:400].replace("\n", " | "))
+        except Exception:
+            pass
         print("VIOLATION property=%s replay=%s" % (pid, rp))
 
     ev = {
